@@ -12,6 +12,8 @@ Legs (all differential: extracted Model/Client.v vs the real code; monitors eval
            each client's (start-up class, outcome) is looked up in the model's decision table (trace acceptance)
   poison   ONE fresh real server: well-formed but unservable compile requests (real client or hand-built bincode
            frame) FIRST, then ordinary requests for the SAME compiler path on other connections, which must be served
+  vanish   DAEMONISED real server; a peer sends a complete well-formed Compile request and closes / resets / half-closes
+           before or after the acknowledgement while a bystander compile is in flight: the same server must survive
   kill     the real server SIGKILLed while its compiler is in a scripted phase (detection = before the first
            response / preprocessor / compiler), then a compile with no server running
 """
@@ -647,6 +649,44 @@ def shrink_poison(case):
             yield [cc, steps[:i] + steps[i + 1:]]
 
 
+# ---------------------------------------------------------------- vanish leg
+
+VANISH_FRAME = frame(compile_req(b'/d/bin/gcc', b'/d/wv', [b'-c', b'unit.c', b'-o', b'unit.o'],
+                                 [(b'PATH', b'/usr/bin:/bin'), (b'C11_TAG', b'v')]))
+
+
+def gen_vanish(rng, tier):
+    reps = 3 if tier == 'thorough' else 1
+    out = []
+    for _ in range(reps):
+        for beh in (b'close', b'reset', b'half_close'):
+            for when in (b'immediately', b'after_started'):
+                out.append([beh, when, VANISH_FRAME])
+    out.append([b'close', b'immediately', VANISH_FRAME])
+    return out
+
+
+def monitor_vanish(case, out):
+    beh, when, _ = case
+    if not isinstance(out, list) or len(out) != 5:
+        return ['the run did not complete normally: %r' % (out,)]
+    alive, count, bystander, later, peer = out
+    what = 'a peer sent a complete well-formed Compile request and then %s (%s)' % (beh.decode(), when.decode())
+    vs = []
+    if alive != 1:
+        vs.append('%s: the daemonised server process is gone (or was replaced)' % what)
+    if bystander != b'served':
+        vs.append('%s: a bystander whose compile was in flight on the server was not served by it: %s'
+                  % (what, bystander.decode() if isinstance(bystander, bytes) else bystander))
+    if later != b'served':
+        vs.append('%s: a later ordinary client was not served by the server: %r' % (what, later))
+    if alive == 1 and count != 4:
+        vs.append('%s: the server counts %r compile requests instead of 4 (not the same server / requests lost)' % (what, count))
+    if beh == b'half_close' and peer != b'both':
+        vs.append('a peer that only half-closed after its request did not receive both answers (%r)' % (peer,))
+    return vs[:3]
+
+
 # ---------------------------------------------------------------- wiring
 
 def prebuild(rep):
@@ -672,6 +712,13 @@ def legs(tier):
             rule='1-3 connections, each a random mix of valid requests, oversized headers, undecodable frames, '
                  'truncated frames, cut into random chunks and interleaved; a bystander client compiles with real gcc '
                  'meanwhile; non-trivial = a connection was closed by the server or several connections were open'),
+        Leg('vanish', gen_vanish, monitor=monitor_vanish, impl_env=env, shards=7,
+            stats=lambda c, o: ['peer=%s/%s' % (c[0].decode(), c[1].decode())],
+            rule='DAEMONISED real server (sccache --start-server; pid through /proc); a peer sends a complete well-formed '
+                 'Compile request and then {closes, resets (SO_LINGER 0), half-closes} x {at once (request and FIN in '
+                 'one segment), after reading CompileStarted}; its compile is held in the compiler until it is gone, a '
+                 'bystander compile is held in flight meanwhile; monitor: same server pid alive and answering, 4 compile '
+                 'requests counted, bystander and a later client served by the server (no local fallback)'),
         Leg('coldstart', gen_coldstart, monitor=monitor_coldstart, compare=compare_coldstart, stats=stats_coldstart,
             impl_env=env, shards=4,
             rule='no server on a fresh port (also right after a SIGKILLed one), k in {1,2,6,12} real clients parked on a '
